@@ -39,13 +39,29 @@ structure Prog (s0 : State) (P : List ObjId) (s : State) : Prop where
   statusKept : ∀ j, (s.objs j).status = (s0.objs j).status ∨ ∃ k, (s.objs j).oid = some k ∧ marked s k
   pendFresh : ∀ j ∈ P, (s0.objs j).oid = none → ∀ k, (s.objs j).oid = some k →
     s.cache.get k = none ∧ s.added.get k = none
+  serialKept : ∀ j, ((s0.objs j).oid = none ∨ ∃ k, s0.added.get k = some j) →
+    (s.objs j).serial = (s0.objs j).serial
 
 theorem Prog.refl {s : State} (h : Str [] s) : Prog s [] s := by
   refine ⟨h, h, rfl, rfl, Nat.le_refl _, fun _ _ h => h, fun _ _ => ⟨rfl, rfl, rfl⟩, fun _ h => h,
     fun _ h => h, ?_, fun _ _ h => h, fun _ _ h => Or.inl h, fun _ _ h => h, fun _ h => Or.inl h, rfl,
-    fun _ _ => Or.inl rfl, fun _ _ _ => rfl, fun _ => Or.inl rfl, ?_⟩
+    fun _ _ => Or.inl rfl, fun _ _ _ => rfl, fun _ => Or.inl rfl, ?_, fun _ _ => rfl⟩
   · intro i k h1 h2; rw [h1] at h2; cases h2
   · intro j hj; cases hj
+
+/-- the order of the stack does not matter for the relation -/
+theorem Prog.perm {s0 P Q s} (h : Prog s0 P s) (hPQ : ∀ i, i ∈ P ↔ i ∈ Q) : Prog s0 Q s :=
+  { h with
+    str := h.str.mono (fun i hi => (hPQ i).1 hi)
+    newTracked := fun i k h1 h2 => by
+      obtain ⟨h3, h4⟩ := h.newTracked i k h1 h2
+      exact ⟨h3, h4.elim (fun h5 => Or.inl ((hPQ i).1 h5)) Or.inr⟩
+    fresh0 := fun j hj => by
+      rcases h.fresh0 j hj with h1 | h1 | h1
+      · exact Or.inl h1
+      · exact Or.inr (Or.inl ⟨h1.1, (hPQ j).1 h1.2⟩)
+      · exact Or.inr (Or.inr h1)
+    pendFresh := fun j hj => h.pendFresh j ((hPQ j).2 hj) }
 
 theorem classify_added (s : State) (i k k') :
     (classify s i k).added.get k' = if isNewObj s (s.objs i) k = true ∧ k' = k then none else s.added.get k' := by
@@ -73,7 +89,8 @@ structure StepSpec (s : State) (i k : Nat) (rest : List Nat) (s3 : State) (pushe
     (j = i ∧ (s3.objs j).oid = (s.objs j).oid ∧ (s3.objs j).jar = (s.objs j).jar ∧
       (s3.objs j).status = .uptodate ∧
       ((s.objs j).status ≠ .ghost → (s3.objs j).val = (s.objs j).val ∧
-        (s3.objs j).refs = (s.objs j).refs ∧ (s3.objs j).serial = (s.objs j).serial)) ∨
+        (s3.objs j).refs = (s.objs j).refs ∧ (s3.objs j).serial = (s.objs j).serial) ∧
+      ((s.objs j).status = .ghost → loadRec s k ≠ none)) ∨
     (j ≠ i ∧ j ∈ pushed ∧ (s.objs j).oid = none ∧
       s3.objs j = { s.objs j with oid := (s3.objs j).oid, jar := true } ∧
       ∃ k', (s3.objs j).oid = some k' ∧ s.nextOid ≤ k' ∧ k' < s3.nextOid)
@@ -119,5 +136,1144 @@ theorem StepSpec.marked_self {s i k rest s3 pushed} (sp : StepSpec s i k rest s3
   · right; simp [h]
   · left; simp [h]
 
+
+@[simp] theorem classify_loadRec (s : State) (i k k') : loadRec (classify s i k) k' = loadRec s k' := by
+  unfold loadRec
+  rw [classify_sp]
+  have : (classify s i k).snap = s.snap := by unfold classify; split <;> rfl
+  rw [this]
+
+/-- one iteration of `_store_objects`, whatever its outcome -/
+theorem storeOne_step {s : State} {i k : Nat} {rest : List Nat}
+    (hS : Str (i :: rest) s) (hk : (s.objs i).oid = some k)
+    (hnew : s.added.get k ≠ none → isNewObj s (s.objs i) k = true)
+    (hc : isNewObj s (s.objs i) k = false → s.cache.get k = some i) :
+    StepSpec s i k rest (storeOne s i).1.1 (storeOne s i).2 ∧
+    ((storeOne s i).1.2 = none → StoredSpec s i k (storeOne s i).1.1) := by
+  -- after the bookkeeping the object is in the cache and not in `_added`
+  have hcC : ∀ k', (classify s i k).cache.get k' = if k' = k then some i else s.cache.get k' := by
+    intro k'
+    rw [classify_cache]
+    by_cases hn : isNewObj s (s.objs i) k = true
+    · simp [hn]
+    · have hn' : isNewObj s (s.objs i) k = false := by simpa using hn
+      simp only [hn', Bool.false_eq_true, false_and, if_false]
+      by_cases hkk : k' = k
+      · subst hkk; simp [hc hn']
+      · simp [hkk]
+  have haddC : (classify s i k).added.get k = none := by
+    rw [classify_added]
+    split
+    · rfl
+    · rename_i hn
+      cases ha : s.added.get k with
+      | none => rfl
+      | some j => exact absurd ⟨hnew (by rw [ha]; simp), rfl⟩ hn
+  have hstrC : Str rest (classify s i k) :=
+    (classify_str hS i k List.mem_cons_self hk).drop (by rw [classify_objs]; exact hk)
+      (Or.inl (by rw [hcC]; simp))
+  unfold storeOne
+  simp only [hk]
+  have hobj1 := access_objs (classify s i k) i
+  have hbooks1 := access_books (classify s i k) i
+  have hstores1 := access_stores (classify s i k) i
+  have hctx1 := access_ctx (classify s i k) i
+  have hnext1 := access_nextOid (classify s i k) i
+  have htc1 := access_tmpCr (classify s i k) i
+  have hcache1 := access_cache (classify s i k) i
+  have hstr1 := access_str hstrC i
+  have hng1 := access_ok_nonghost (classify s i k) i
+  have herr1 := access_err_state (classify s i k) i
+  generalize access (classify s i k) i = a at *
+  obtain ⟨a1, a2⟩ := a
+  simp only [classify_objs, classify_nextOid, classify_tmpCr, classify_ctx, classify_loadRec]
+    at hobj1 hnext1 htc1 hctx1
+  simp only [books, stores, Prod.mk.injEq, classify_sp, classify_staged] at hbooks1 hstores1
+  cases a2 with
+  | some e =>
+    simp only at herr1 ⊢
+    have herr1 := herr1 (by simp)
+    subst herr1
+    refine ⟨?_, fun h => by simp at h⟩
+    constructor
+    · simpa using hstrC
+    · simp
+    · intro j; left; rw [classify_objs]
+    · intro j hj; cases hj
+    · exact hcC
+    · exact classify_added s i k
+    · exact classify_creating s i k
+    · exact classify_modified s i k
+    · rw [classify_nextOid]; exact Nat.le_refl _
+    · exact classify_ctx s i k
+    · rw [classify_sp]
+    · exact classify_tmpCr s i k
+  | none =>
+    simp only at hng1 ⊢
+    have hng1 := hng1 trivial
+    -- the pickler
+    have ser := serialize_ok a1 (a1.objs i).refs
+    have hrefs := serialize_refs_oid a1 (a1.objs i).refs
+    have hstr2 := serialize_str hstr1 (a1.objs i).refs
+    have hbooks2 := serialize_books a1 (a1.objs i).refs
+    have hstores2 := serialize_stores a1 (a1.objs i).refs
+    have hctx2 := serialize_ctx a1 (a1.objs i).refs
+    have htc2 := serialize_tmpCr a1 (a1.objs i).refs
+    have hcache2 := serialize_cache a1 (a1.objs i).refs
+    generalize serialize a1 (a1.objs i).refs = sr at *
+    obtain ⟨s2, pushed⟩ := sr
+    simp only at ser hstr2 hbooks2 hstores2 hctx2 htc2 hrefs hcache2 ⊢
+    simp only [books, stores, Prod.mk.injEq] at hbooks2 hstores2
+    have hoid1 : (a1.objs i).oid = some k := by
+      rcases hobj1 i with h | h
+      · rw [h]; exact hk
+      · rw [h.2.2.2.1]; exact hk
+    have hi2 : s2.objs i = a1.objs i := ser.keep i (by rw [hoid1]; simp)
+    have hoid2 : (s2.objs i).oid = some k := by rw [hi2]; exact hoid1
+    have hc2 : ∀ k', s2.cache.get k' = if k' = k then some i else s.cache.get k' := by
+      intro k'; rw [hcache2, hcache1]; exact hcC k'
+    have hadd2 : s2.added.get k = none := by rw [hbooks2.1, hbooks1.1]; exact haddC
+    -- the store
+    have hnone3 := storeRec_none s2 i k ⟨(a1.objs i).serial, (a1.objs i).val, (a1.objs i).refs⟩
+    have htmp3 := storeRec_tmp s2 i k ⟨(a1.objs i).serial, (a1.objs i).val, (a1.objs i).refs⟩
+    have hobj3 := storeRec_objs s2 i k ⟨(a1.objs i).serial, (a1.objs i).val, (a1.objs i).refs⟩
+    have hcache3 := storeRec_cache' s2 i k ⟨(a1.objs i).serial, (a1.objs i).val, (a1.objs i).refs⟩
+    have hbooks3 := storeRec_books s2 i k ⟨(a1.objs i).serial, (a1.objs i).val, (a1.objs i).refs⟩
+    have hctx3 := storeRec_ctx s2 i k ⟨(a1.objs i).serial, (a1.objs i).val, (a1.objs i).refs⟩
+    have hnext3 := storeRec_nextOid s2 i k ⟨(a1.objs i).serial, (a1.objs i).val, (a1.objs i).refs⟩
+    have hsp3 := storeRec_spSome s2 i k ⟨(a1.objs i).serial, (a1.objs i).val, (a1.objs i).refs⟩
+    have htc3 := storeRec_tmpCr s2 i k ⟨(a1.objs i).serial, (a1.objs i).val, (a1.objs i).refs⟩
+    generalize storeRec s2 i k ⟨(a1.objs i).serial, (a1.objs i).val, (a1.objs i).refs⟩ = r at *
+    obtain ⟨s3, e3⟩ := r
+    simp only [books, Prod.mk.injEq] at hobj3 hcache3 hbooks3 hctx3 hnext3 hsp3 htc3 hnone3 htmp3 ⊢
+    have hcache : ∀ k', s3.cache.get k' = if k' = k then some i else s.cache.get k' := by
+      intro k'
+      rcases hcache3 with h | h
+      · rw [h]; exact hc2 k'
+      · rw [h, Map.get_set, hc2]
+        split <;> rfl
+    -- each object: what happened between `s` and `s3`
+    have hobj : ∀ j, (s3.objs j = s.objs j) ∨
+        (j = i ∧ (s3.objs j).oid = (s.objs j).oid ∧ (s3.objs j).jar = (s.objs j).jar ∧
+          (s3.objs j).status = .uptodate ∧
+          ((s.objs j).status ≠ .ghost → (s3.objs j).val = (s.objs j).val ∧
+            (s3.objs j).refs = (s.objs j).refs ∧ (s3.objs j).serial = (s.objs j).serial) ∧
+          ((s.objs j).status = .ghost → loadRec s k ≠ none)) ∨
+        (j ≠ i ∧ j ∈ pushed ∧ (s.objs j).oid = none ∧
+          s3.objs j = { s.objs j with oid := (s3.objs j).oid, jar := true } ∧
+          ∃ k', (s3.objs j).oid = some k' ∧ s.nextOid ≤ k' ∧ k' < s3.nextOid) := by
+      intro j
+      by_cases hji : j = i
+      · subst hji
+        rcases hobj3 j with h3 | h3
+        · rcases hobj1 j with h1 | h1
+          · left; rw [h3, hi2, h1]
+          · right; left
+            rw [h3, hi2]
+            refine ⟨rfl, h1.2.2.2.1, h1.2.2.2.2.1, h1.2.2.1, fun hg => absurd h1.2.1 hg, fun _ => ?_⟩
+            obtain ⟨k2, hk2, hl⟩ := h1.2.2.2.2.2
+            rw [hk] at hk2; cases hk2; exact hl
+        · right; left
+          rw [h3.2.1, hi2]
+          rcases hobj1 j with h1 | h1
+          · rw [h1]; simp
+            intro hg; exact absurd hg (by rw [← h1]; exact hng1)
+          · refine ⟨rfl, h1.2.2.2.1, h1.2.2.2.2.1, rfl, fun hg => absurd h1.2.1 hg, fun _ => ?_⟩
+            obtain ⟨k2, hk2, hl⟩ := h1.2.2.2.2.2
+            rw [hk] at hk2; cases hk2; exact hl
+      · have h3 : s3.objs j = s2.objs j := by
+          rcases hobj3 j with h3 | h3
+          · exact h3
+          · exact absurd h3.1 hji
+        have h1 : a1.objs j = s.objs j := by
+          rcases hobj1 j with h1 | h1
+          · exact h1
+          · exact absurd h1.1 hji
+        by_cases hp : j ∈ pushed
+        · right; right
+          obtain ⟨hn, k', hk', hge, hlt⟩ := ser.pushedNew j hp
+          simp only at hk' hlt
+          rw [h1] at hn
+          refine ⟨hji, hp, hn, ?_, k', by rw [h3]; exact hk', by omega, by rw [hnext3]; exact hlt⟩
+          rw [h3, ser.pushedObj j hp, h1]
+        · left
+          rw [h3]
+          by_cases hn : (a1.objs j).oid = none
+          · rw [ser.other j hn hp, h1]
+          · rw [ser.keep j hn, h1]
+    have hnext : s.nextOid ≤ s3.nextOid := by have := ser.mono; simp only at this; omega
+    have hoid3 : ∀ x, (s2.objs x).oid ≠ none → (s3.objs x).oid ≠ none := by
+      intro x hx
+      rcases hobj3 x with h | h
+      · rw [h]; exact hx
+      · rw [h.2.1]; rw [h.1] at hx; exact hx
+    have hi3 : (s3.objs i).serial = (a1.objs i).serial ∧ (s3.objs i).val = (a1.objs i).val ∧
+        (s3.objs i).refs = (a1.objs i).refs ∧ (s3.objs i).status ≠ .ghost := by
+      rcases hobj3 i with h | h
+      · rw [h, hi2]; exact ⟨rfl, rfl, rfl, hng1⟩
+      · rw [h.2.1, hi2]; simp
+    -- `Str`: the stored object left the pending list, the pushed ones entered it
+    have hstr3 : Str (pushed.reverse ++ rest) s3 := by
+      have h1 : Str (rest ++ pushed) s3 := by
+        constructor
+        · intro k' j hj
+          rw [hcache, ← hc2] at hj
+          have := hstr2.cacheS k' j hj
+          rcases hobj3 j with h | h
+          · rw [h]; exact this
+          · rw [h.2.1]; rw [h.1] at this; exact this
+        · intro k' j hj
+          rw [hbooks3.1] at hj
+          have := hstr2.addedS k' j hj
+          rw [hcache, ← hc2]
+          refine ⟨?_, this.2⟩
+          rcases hobj3 j with h | h
+          · rw [h]; exact this.1
+          · rw [h.2.1]; have h' := this.1; rw [h.1] at h'; exact h'
+        · intro j
+          rcases hobj3 j with h | h
+          · rw [h]; exact hstr2.jarOid j
+          · rw [h.2.1]; have := hstr2.jarOid j; rw [h.1] at this; exact this
+        · intro j k' hj
+          have hj2 : (s2.objs j).oid = some k' := by
+            rcases hobj3 j with h | h
+            · rw [← h]; exact hj
+            · rw [h.2.1] at hj; rw [h.1]; exact hj
+          rw [hcache, ← hc2, hbooks3.1]
+          exact hstr2.known j k' hj2
+        · intro j k' hj
+          have hj2 : (s2.objs j).oid = some k' := by
+            rcases hobj3 j with h | h
+            · rw [← h]; exact hj
+            · rw [h.2.1] at hj; rw [h.1]; exact hj
+          rw [hnext3]; exact hstr2.fresh j k' hj2
+        · intro j j' k' hj hj'
+          have t : ∀ x, (s3.objs x).oid = some k' → (s2.objs x).oid = some k' := by
+            intro x hx
+            rcases hobj3 x with h | h
+            · rw [← h]; exact hx
+            · rw [h.2.1] at hx; rw [h.1]; exact hx
+          exact hstr2.inj j j' k' (t j hj) (t j' hj')
+        · rw [hbooks3.1]; exact hstr2.addedSorted
+      exact h1.mono (by
+        intro j hj
+        simp only [List.mem_append, List.mem_reverse] at hj ⊢
+        exact hj.symm)
+    refine ⟨?_, ?_⟩
+    · constructor
+      · exact hstr3
+      · exact ser.nodup
+      · exact hobj
+      · intro j hj
+        obtain ⟨hn, k', hk', _⟩ := ser.pushedNew j hj
+        simp only at hk'
+        have hji : j ≠ i := by intro he; subst he; rw [hoid1] at hn; cases hn
+        refine ⟨hji, ?_, hoid3 j (by rw [hk']; simp)⟩
+        rcases hobj1 j with h | h
+        · rw [← h]; exact hn
+        · exact absurd h.1 hji
+      · exact hcache
+      · intro k'; rw [hbooks3.1, hbooks2.1, hbooks1.1, classify_added]
+      · intro k'; rw [hbooks3.2.1, hbooks2.2.1, hbooks1.2.1, classify_creating]
+      · rw [hbooks3.2.2, hbooks2.2.2, hbooks1.2.2, classify_modified]
+      · exact hnext
+      · rw [hctx3, hctx2, hctx1]
+      · rw [hsp3, hstores2.1, hstores1.1]
+      · rw [htc3, htc2, htc1]
+    · intro hok
+      constructor
+      · intro x hx
+        rw [hi3.2.2.1] at hx
+        exact hoid3 x (hrefs x hx)
+      · exact hi3.2.2.2
+      · intro hsp
+        have hsp2 : s2.sp = none := by rw [hstores2.1, hstores1.1]; exact hsp
+        obtain ⟨h1, h2, h3⟩ := hnone3 hsp2 hok
+        refine ⟨h1, by rw [h2, hstores2.2.2, hstores1.2.2]; unfold classify; split <;> rfl, ?_⟩
+        rw [h3, hstores2.2.1, hstores1.2.1, hi3.1, hi3.2.1, hi3.2.2.1]
+      · intro t hsp
+        have hsp2 : s2.sp = some t := by rw [hstores2.1, hstores1.1]; exact hsp
+        obtain ⟨h1, h2, h3⟩ := htmp3 t hsp2
+        refine ⟨by rw [h1, hi3.1, hi3.2.1, hi3.2.2.1], by rw [h2, hstores2.2.1, hstores1.2.1], h3⟩
+
+/-- what one iteration of `_store_objects` guarantees (whatever its outcome) -/
+structure StepOK (s0 s : State) (i : ObjId) (rest : List ObjId) (s3 : State) (pushed : List ObjId) : Prop where
+  prog : Prog s0 (pushed.reverse ++ rest) s3
+  pushedFresh : ∀ j ∈ pushed, (s.objs j).oid = none ∧ (s0.objs j).oid = none ∧
+    ∃ k', s3.objs j = { s0.objs j with oid := some k', jar := true } ∧ s0.nextOid ≤ k'
+
+/-- one iteration of `_store_objects` keeps the progress relation -/
+theorem storeOne_prog {s0 s : State} {i k : Nat} {rest : List Nat} {s3 : State} {pushed : List Nat}
+    (hP : Prog s0 (i :: rest) s) (hk : (s.objs i).oid = some k)
+    (hnew : s.added.get k ≠ none → isNewObj s (s.objs i) k = true)
+    (hknown : (s.cache.get k = some i ∧ (s0.objs i).status ≠ .ghost) ∨ s.added.get k = some i ∨
+      (s0.objs i).oid = none)
+    (hnew0 : (s0.objs i).oid = none → isNewObj s (s.objs i) k = true)
+    (hni : i ∉ rest) (hrest : ∀ j ∈ rest, (s.objs j).oid ≠ none)
+    (hnorec : ((s0.objs i).oid = none ∨ ∃ k', s0.added.get k' = some i) →
+      (s.objs i).status = .ghost → loadRec s k = none)
+    (sp : StepSpec s i k rest s3 pushed) :
+    StepOK s0 s i rest s3 pushed := by
+  have hobj := sp.obj
+  have hcache := sp.cache
+  have hadded := sp.added
+  have hcreating := sp.creating
+  have hnext := sp.nextOid
+  have hisnew : s.added.get k = some i → isNewObj s (s.objs i) k = true :=
+    fun h => hnew (by rw [h]; simp)
+  refine ⟨?_, ?_⟩
+  rotate_left
+  · -- pushedFresh
+    intro j hj
+    obtain ⟨hji, hsn, hsome⟩ := sp.pushedNew j hj
+    have h0n : (s0.objs j).oid = none := by
+      cases h0 : (s0.objs j).oid with
+      | none => rfl
+      | some k0 => have := hP.oidKeep j k0 h0; rw [hsn] at this; cases this
+    refine ⟨hsn, h0n, ?_⟩
+    have hs0 : s.objs j = s0.objs j := by
+      rcases hP.fresh0 j h0n with h | h | h
+      · exact h
+      · obtain ⟨⟨k2, hk2⟩, _⟩ := h; rw [hk2] at hsn; cases hsn
+      · obtain ⟨k2, hk2, _⟩ := h; rw [hk2] at hsn; cases hsn
+    rcases hobj j with h | h | h
+    · rw [h, hsn] at hsome; exact absurd rfl hsome
+    · exact absurd h.1 hji
+    · obtain ⟨k2, hk2, hge, _⟩ := h.2.2.2.2
+      refine ⟨k2, ?_, by have := hP.nextOid; omega⟩
+      rw [h.2.2.2.1, hk2, hs0]
+  constructor
+  · exact hP.base
+  · exact sp.str
+  · rw [sp.ctx]; exact hP.ctx
+  · rw [sp.spSome]; exact hP.spSome
+  · have := hP.nextOid; omega
+  · intro j k' hj
+    have := hP.oidKeep j k' hj
+    rcases hobj j with h | h | h
+    · rw [h]; exact this
+    · rw [h.2.1]; exact this
+    · rw [h.2.2.1] at this; cases this
+  · intro j hg
+    have h0 := hP.objVal j hg
+    rcases hobj j with h | h | h
+    · rw [h]; exact h0
+    · by_cases hsg : (s.objs j).status = .ghost
+      · exact absurd (hP.noGhost j hsg) hg
+      · have := h.2.2.2.2.1 hsg; rw [this.1, this.2.1, this.2.2]; exact h0
+    · rw [h.2.2.2.1]; exact h0
+  · intro j hc
+    apply hP.noChange
+    rcases hobj j with h | h | h
+    · rw [← h]; exact hc
+    · rw [h.2.2.2.1] at hc; cases hc
+    · rw [h.2.2.2.1] at hc; exact hc
+  · intro j hc
+    apply hP.noGhost
+    rcases hobj j with h | h | h
+    · rw [← h]; exact hc
+    · rw [h.2.2.2.1] at hc; cases hc
+    · rw [h.2.2.2.1] at hc; exact hc
+  · -- newTracked
+    intro j k' h0 hj
+    have hstr := hP.str
+    have hoidj : (s.objs j).oid = some k' ∨ (j ≠ i ∧ j ∈ pushed ∧ s.nextOid ≤ k') := by
+      rcases hobj j with h | h | h
+      · left; rw [← h]; exact hj
+      · left; rw [← h.2.1]; exact hj
+      · right; obtain ⟨k2, hk2, hge, _⟩ := h.2.2.2.2
+        rw [hk2] at hj; cases hj; exact ⟨h.1, h.2.1, hge⟩
+    rcases hoidj with hoidj | hoidj
+    · obtain ⟨hge, htr⟩ := hP.newTracked j k' h0 hoidj
+      refine ⟨hge, ?_⟩
+      by_cases hji : j = i
+      · subst hji
+        rw [hk] at hoidj; cases hoidj
+        right
+        rw [hcreating, hcache]
+        simp [hnew0 h0]
+      · rcases htr with htr | htr
+        · left
+          simp only [List.mem_cons] at htr
+          simp only [List.mem_append, List.mem_reverse]
+          rcases htr with htr | htr
+          · exact absurd htr hji
+          · exact Or.inr htr
+        · right
+          rw [hcreating, hcache]
+          have hne : k' ≠ k := by
+            intro he; subst he
+            exact hji (hstr.inj j i k' hoidj hk)
+          simp [hne, htr.1, htr.2]
+    · refine ⟨by have := hP.nextOid; omega, Or.inl ?_⟩
+      simp only [List.mem_append, List.mem_reverse]
+      exact Or.inl hoidj.2.1
+  · -- addedSub
+    intro k' j hj
+    rw [hadded] at hj
+    split at hj
+    · cases hj
+    · exact hP.addedSub k' j hj
+  · -- addedTracked
+    intro k' j hj
+    have hstr := hP.str
+    rcases hP.addedTracked k' j hj with h | h
+    · by_cases hkk : k' = k
+      · subst hkk
+        have hji : j = i := hstr.inj j i k' (hstr.addedS k' j h).1 hk
+        subst hji
+        right
+        rw [hcreating, hcache]
+        simp [hisnew h]
+      · left; rw [hadded]; simp [hkk, h]
+    · right
+      rw [hcreating, hcache]
+      by_cases hkk : k' = k
+      · subst hkk
+        have hji : j = i := hstr.inj j i k' (hstr.cacheS k' j h.2) hk
+        subst hji
+        simp [h.1]
+      · simp [hkk, h.1, h.2]
+  · -- cacheGrow
+    intro k' j hj
+    have hstr := hP.str
+    have h := hP.cacheGrow k' j hj
+    rw [hcache]
+    by_cases hkk : k' = k
+    · subst hkk
+      have hji : j = i := hstr.inj j i k' (hstr.cacheS k' j h) hk
+      simp [hji]
+    · simp [hkk, h]
+  · -- creatingNew
+    intro k' hc
+    rw [hcreating] at hc
+    by_cases hcond : isNewObj s (s.objs i) k = true ∧ k' = k
+    · obtain ⟨hisn, hkk⟩ := hcond
+      subst hkk
+      right
+      rcases hknown with h | h | h
+      · by_cases h0 : (s0.objs i).oid = none
+        · exact Or.inl (hP.newTracked i k' h0 hk).1
+        · right
+          obtain ⟨k0, hk0⟩ := Option.ne_none_iff_exists'.1 h0
+          have hkk : k0 = k' := by
+            have := hP.oidKeep i k0 hk0; rw [hk] at this; cases this; rfl
+          subst hkk
+          have hser : (s.objs i).serial = 0 := by
+            unfold isNewObj at hisn
+            simp only [Bool.and_eq_true, beq_iff_eq] at hisn
+            exact hisn.1
+          have hser0 : (s0.objs i).serial = 0 := by
+            rw [← (hP.objVal i h.2).2.2]; exact hser
+          have hkn := hP.base.known i k0 hk0
+          simp only [List.not_mem_nil, or_false] at hkn
+          rcases hkn with hkn | hkn
+          · exact Or.inr ⟨i, hkn, hser0, h.2⟩
+          · exact Or.inl ⟨i, hkn⟩
+      · exact Or.inr (Or.inl ⟨i, hP.addedSub k' i h⟩)
+      · exact Or.inl (hP.newTracked i k' h hk).1
+    · rw [if_neg hcond] at hc
+      exact hP.creatingNew k' hc
+  · -- tmpCr
+    rw [sp.tmpCr]; exact hP.tmpCr
+  · -- fresh0
+    intro j h0
+    have hstr := hP.str
+    rcases hP.fresh0 j h0 with h | h | h
+    · have hnone : (s.objs j).oid = none := by rw [h]; exact h0
+      rcases hobj j with h' | h' | h'
+      · left; rw [h', h]
+      · rw [h'.1, hk] at hnone; cases hnone
+      · right; left
+        refine ⟨?_, ?_⟩
+        · obtain ⟨k2, hk2, _⟩ := h'.2.2.2.2
+          refine ⟨k2, ?_⟩
+          rw [h'.2.2.2.1, hk2, h]
+        · simp only [List.mem_append, List.mem_reverse]; exact Or.inl h'.2.1
+    · obtain ⟨⟨k2, hk2⟩, hmem⟩ := h
+      have hoidj : (s.objs j).oid = some k2 := by rw [hk2]
+      by_cases hji : j = i
+      · subst hji
+        rw [hk] at hoidj; cases hoidj
+        right; right
+        refine ⟨k, ?_, ?_, ?_⟩
+        · rcases hobj j with h' | h' | h'
+          · rw [h']; exact hk
+          · rw [h'.2.1]; exact hk
+          · exact absurd rfl h'.1
+        · rw [hcreating]; simp [hnew0 h0]
+        · rw [hcache]; simp
+      · right; left
+        have hsame : s3.objs j = s.objs j := by
+          rcases hobj j with h' | h' | h'
+          · exact h'
+          · exact absurd h'.1 hji
+          · rw [h'.2.2.1] at hoidj; cases hoidj
+        refine ⟨⟨k2, by rw [hsame, hk2]⟩, ?_⟩
+        simp only [List.mem_cons] at hmem
+        simp only [List.mem_append, List.mem_reverse]
+        rcases hmem with hmem | hmem
+        · exact absurd hmem hji
+        · exact Or.inr hmem
+    · obtain ⟨k2, hk2, hcr, hca⟩ := h
+      right; right
+      refine ⟨k2, ?_, ?_, ?_⟩
+      · rcases hobj j with h' | h' | h'
+        · rw [h']; exact hk2
+        · rw [h'.2.1]; exact hk2
+        · rw [h'.2.2.1] at hk2; cases hk2
+      · rw [hcreating]; split
+        · rfl
+        · exact hcr
+      · rw [hcache]
+        by_cases hkk : k2 = k
+        · subst hkk
+          have := hstr.inj j i k2 hk2 hk
+          simp [this]
+        · simp [hkk, hca]
+  · -- addedSame
+    intro k' j hj
+    have hstr := hP.str
+    rw [hadded] at hj
+    split at hj
+    · cases hj
+    · rename_i hcond
+      rw [← hP.addedSame k' j hj]
+      have hoidj := (hstr.addedS k' j hj).1
+      rcases hobj j with h' | h' | h'
+      · exact h'
+      · exfalso
+        have hji := h'.1
+        subst hji
+        rw [hk] at hoidj; cases hoidj
+        exact hcond ⟨hisnew hj, rfl⟩
+      · rw [h'.2.2.1] at hoidj; cases hoidj
+
+
+  · -- statusKept
+    intro j
+    rcases hobj j with h | h | h
+    · rcases hP.statusKept j with h' | ⟨k', hk', hm⟩
+      · left; rw [h]; exact h'
+      · right; exact ⟨k', by rw [h]; exact hk', sp.marked_mono k' hm⟩
+    · right
+      refine ⟨k, ?_, sp.marked_self⟩
+      rw [h.2.1, h.1]; exact hk
+    · rcases hP.statusKept j with h' | ⟨k', hk', hm⟩
+      · left; rw [h.2.2.2.1]; exact h'
+      · rw [h.2.2.1] at hk'; cases hk'
+  · -- pendFresh
+    intro j hjm h0 kj hkj
+    simp only [List.mem_append, List.mem_reverse] at hjm
+    rcases hjm with hjp | hjr
+    · obtain ⟨hji, hsn, _⟩ := sp.pushedNew j hjp
+      have hge : s.nextOid ≤ kj := by
+        rcases hobj j with h | h | h
+        · rw [h, hsn] at hkj; cases hkj
+        · exact absurd h.1 hji
+        · obtain ⟨k2, hk2, hge, _⟩ := h.2.2.2.2
+          rw [hk2] at hkj; cases hkj; exact hge
+      have hkne : kj ≠ k := by
+        intro he; subst he; have := hP.str.fresh i kj hk; omega
+      rw [hcache, hadded]
+      simp only [hkne, if_false, and_false]
+      constructor
+      · cases hcg : s.cache.get kj with
+        | none => rfl
+        | some j' => have := hP.str.fresh j' kj (hP.str.cacheS kj j' hcg); omega
+      · cases hcg : s.added.get kj with
+        | none => rfl
+        | some j' => have := hP.str.fresh j' kj (hP.str.addedS kj j' hcg).1; omega
+    · have hji : j ≠ i := by intro he; rw [he] at hjr; exact hni hjr
+      have hkjs : (s.objs j).oid = some kj := by
+        rcases hobj j with h | h | h
+        · rw [← h]; exact hkj
+        · exact absurd h.1 hji
+        · exact absurd h.2.2.1 (hrest j hjr)
+      have hkne : kj ≠ k := by
+        intro he; subst he; exact hji (hP.str.inj j i kj hkjs hk)
+      obtain ⟨h1, h2⟩ := hP.pendFresh j (List.mem_cons_of_mem _ hjr) h0 kj hkjs
+      rw [hcache, hadded]
+      simp [hkne, h1, h2]
+
+
+  · -- serialKept
+    intro j hj
+    rw [← hP.serialKept j hj]
+    rcases hobj j with h | h | h
+    · rw [h]
+    · by_cases hsg : (s.objs j).status = .ghost
+      · exfalso
+        have hji := h.1
+        subst hji
+        exact h.2.2.2.2.2 hsg (hnorec hj hsg)
+      · exact (h.2.2.2.2.1 hsg).2.2
+    · rw [h.2.2.2.1]
+
+/-! ### the `finally` clause: what is left on the stack after an error is disowned -/
+
+theorem disownPending_prog {s0 s : State} {j : Nat} {P : List Nat}
+    (hP : Prog s0 (j :: P) s) (h0 : (s0.objs j).oid = none) (hjP : j ∉ P) :
+    Prog s0 P (disownPending s j) := by
+  have hjar0 : (s0.objs j).jar = false := by
+    have := hP.base.jarOid j; rw [h0] at this; simpa using this
+  -- the object is in neither table
+  have hnc : ∀ k', s.cache.get k' ≠ some j := by
+    intro k' hk'
+    have := hP.str.cacheS k' j hk'
+    have := (hP.pendFresh j List.mem_cons_self h0 k' this).1
+    rw [this] at hk'; cases hk'
+  have hna : ∀ k', s.added.get k' ≠ some j := by
+    intro k' hk'
+    have := (hP.str.addedS k' j hk').1
+    have := (hP.pendFresh j List.mem_cons_self h0 k' this).2
+    rw [this] at hk'; cases hk'
+  have hobj : ∀ x, x ≠ j → (disownPending s j).objs x = s.objs x := by
+    intro x hx; simp [disownPending, setO, hx]
+  have hj : (disownPending s j).objs j = s0.objs j := by
+    simp only [disownPending, setO, if_true]
+    rcases hP.fresh0 j h0 with h | h | h
+    · rw [h]
+      cases hs : s0.objs j
+      simp_all
+    · obtain ⟨⟨k2, hk2⟩, _⟩ := h
+      rw [hk2]
+      cases hs : s0.objs j
+      simp_all
+    · obtain ⟨k2, hk2, _, hca⟩ := h
+      exact absurd hca (hnc k2)
+  constructor
+  · exact hP.base
+  · -- Str
+    constructor
+    · intro k' x hx
+      have hxj : x ≠ j := by intro he; subst he; exact hnc k' hx
+      rw [hobj x hxj]; exact hP.str.cacheS k' x hx
+    · intro k' x hx
+      have hxj : x ≠ j := by intro he; subst he; exact hna k' hx
+      rw [hobj x hxj]; exact hP.str.addedS k' x hx
+    · intro x
+      by_cases hx : x = j
+      · subst hx; rw [hj, h0, hjar0]; rfl
+      · rw [hobj x hx]; exact hP.str.jarOid x
+    · intro x k' hx
+      by_cases hxj : x = j
+      · subst hxj; rw [hj, h0] at hx; cases hx
+      · rw [hobj x hxj] at hx
+        rcases hP.str.known x k' hx with h | h | h
+        · exact Or.inl h
+        · exact Or.inr (Or.inl h)
+        · rcases List.mem_cons.1 h with h | h
+          · exact absurd h hxj
+          · exact Or.inr (Or.inr h)
+    · intro x k' hx
+      by_cases hxj : x = j
+      · subst hxj; rw [hj, h0] at hx; cases hx
+      · rw [hobj x hxj] at hx; exact hP.str.fresh x k' hx
+    · intro x x' k' hx hx'
+      by_cases hxj : x = j
+      · subst hxj; rw [hj, h0] at hx; cases hx
+      · by_cases hxj' : x' = j
+        · subst hxj'; rw [hj, h0] at hx'; cases hx'
+        · rw [hobj x hxj] at hx; rw [hobj x' hxj'] at hx'; exact hP.str.inj x x' k' hx hx'
+    · exact hP.str.addedSorted
+  · exact hP.ctx
+  · exact hP.spSome
+  · exact hP.nextOid
+  · intro x k' hx
+    have hxj : x ≠ j := by intro he; subst he; rw [h0] at hx; cases hx
+    rw [hobj x hxj]; exact hP.oidKeep x k' hx
+  · intro x hg
+    by_cases hxj : x = j
+    · subst hxj; rw [hj]; exact ⟨rfl, rfl, rfl⟩
+    · rw [hobj x hxj]; exact hP.objVal x hg
+  · intro x hc
+    by_cases hxj : x = j
+    · subst hxj; rw [hj] at hc; exact hc
+    · rw [hobj x hxj] at hc; exact hP.noChange x hc
+  · intro x hc
+    by_cases hxj : x = j
+    · subst hxj; rw [hj] at hc; exact hc
+    · rw [hobj x hxj] at hc; exact hP.noGhost x hc
+  · intro x k' hx0 hx
+    by_cases hxj : x = j
+    · subst hxj; rw [hj, h0] at hx; cases hx
+    · rw [hobj x hxj] at hx
+      obtain ⟨h1, h2⟩ := hP.newTracked x k' hx0 hx
+      refine ⟨h1, ?_⟩
+      rcases h2 with h2 | h2
+      · rcases List.mem_cons.1 h2 with h2 | h2
+        · exact absurd h2 hxj
+        · exact Or.inl h2
+      · exact Or.inr h2
+  · exact hP.addedSub
+  · exact hP.addedTracked
+  · exact hP.cacheGrow
+  · exact hP.creatingNew
+  · exact hP.tmpCr
+  · intro x hx0
+    by_cases hxj : x = j
+    · subst hxj; left; exact hj
+    · rw [hobj x hxj]
+      rcases hP.fresh0 x hx0 with h | h | h
+      · exact Or.inl h
+      · right; left
+        refine ⟨h.1, ?_⟩
+        rcases List.mem_cons.1 h.2 with h2 | h2
+        · exact absurd h2 hxj
+        · exact h2
+      · exact Or.inr (Or.inr h)
+  · intro k' x hx
+    have hxj : x ≠ j := by intro he; subst he; exact hna k' hx
+    rw [hobj x hxj]; exact hP.addedSame k' x hx
+  · intro x
+    by_cases hxj : x = j
+    · subst hxj; left; rw [hj]
+    · rw [hobj x hxj]; exact hP.statusKept x
+  · intro x hxP hx0 k' hx
+    have hxj : x ≠ j := by intro he; subst he; exact hjP hxP
+    rw [hobj x hxj] at hx
+    exact hP.pendFresh x (List.mem_cons_of_mem _ hxP) hx0 k' hx
+  · intro x hx
+    by_cases hxj : x = j
+    · subst hxj; rw [hj]
+    · rw [hobj x hxj]; exact hP.serialKept x hx
+
+theorem dropStack_prog {s0 : State} : ∀ (P : List Nat) (s : State), Prog s0 P s →
+    (∀ j ∈ P, (s0.objs j).oid = none) → P.Nodup → Prog s0 [] (dropStack s P) := by
+  intro P
+  induction P with
+  | nil => intro s h _ _; exact h
+  | cons j rest ih =>
+    intro s h h0 hnd
+    simp only [dropStack, List.foldl_cons]
+    exact ih _ (disownPending_prog h (h0 j List.mem_cons_self) (List.nodup_cons.1 hnd).1)
+      (fun x hx => h0 x (List.mem_cons_of_mem _ hx)) (List.nodup_cons.1 hnd).2
+
+/-! ### the whole loop of `_store_objects` -/
+
+/-- what `_commit` needs to know about the state it starts in, in order to classify objects -/
+structure NewOK (s0 : State) : Prop where
+  serial0 : ∀ j, (s0.objs j).oid = none → (s0.objs j).serial = 0
+  tmpFresh : ∀ cr, tmpCr s0 = some cr → ∀ k, cr.get k ≠ none → k < s0.nextOid
+
+theorem isNewObj_true {s : State} {o : Obj} {k : Nat} (h1 : o.serial = 0)
+    (h2 : ∀ cr, tmpCr s = some cr → cr.get k = none) : isNewObj s o k = true := by
+  unfold isNewObj
+  simp only [h1, beq_self_eq_true, Bool.true_and]
+  unfold tmpCr at h2
+  cases hs : s.sp with
+  | none => rfl
+  | some t =>
+    simp only [hs, Option.map_some, Option.some.injEq, forall_eq'] at h2
+    simp [h2]
+
+/-- requirements on an object waiting on the writer's stack -/
+def StackOK (s0 s : State) (j : ObjId) : Prop :=
+  ∃ k, (s.objs j).oid = some k ∧
+    (s.added.get k ≠ none → isNewObj s (s.objs j) k = true) ∧
+    ((s.cache.get k = some j ∧ (s0.objs j).status ≠ .ghost) ∨ s.added.get k = some j ∨
+      (s0.objs j).oid = none) ∧
+    ((s0.objs j).oid = none → isNewObj s (s.objs j) k = true)
+
+/-- an extra invariant carried through the successful iterations -/
+def StepInv (J : State → Prop) : Prop :=
+  ∀ s i k rest s3 pushed, J s → Str (i :: rest) s → (s.objs i).oid = some k →
+    StepSpec s i k rest s3 pushed → StoredSpec s i k s3 → J s3
+
+/-- a new object that is a ghost has no record it could be loaded from -/
+def NoRec (s0 s : State) : Prop :=
+  ∀ j k, (s.objs j).oid = some k → ((s0.objs j).oid = none ∨ ∃ k', s0.added.get k' = some j) →
+    (s.objs j).status = .ghost → loadRec s k = none
+
+/-- one iteration, packaged for the loops -/
+theorem storeOne_loop {s0 s : State} (hN : NewOK s0) {i : Nat} {rest : List Nat}
+    (hP : Prog s0 (i :: rest) s) (hnr : NoRec s0 s) (hnd : (i :: rest).Nodup)
+    (hst : ∀ j ∈ i :: rest, StackOK s0 s j) (hpend : ∀ j ∈ rest, (s0.objs j).oid = none) :
+    ∃ k, (s.objs i).oid = some k ∧ StepSpec s i k rest (storeOne s i).1.1 (storeOne s i).2 ∧
+      ((storeOne s i).1.2 = none → StoredSpec s i k (storeOne s i).1.1) ∧
+      Prog s0 ((storeOne s i).2.reverse ++ rest) (storeOne s i).1.1 ∧
+      ((storeOne s i).2.reverse ++ rest).Nodup ∧
+      (∀ j ∈ (storeOne s i).2.reverse ++ rest, StackOK s0 (storeOne s i).1.1 j) ∧
+      (∀ j ∈ (storeOne s i).2.reverse ++ rest, (s0.objs j).oid = none) := by
+  obtain ⟨k, hk, hnew, hknown, hnew0⟩ := hst i List.mem_cons_self
+  have hc : isNewObj s (s.objs i) k = false → s.cache.get k = some i := by
+    intro hn
+    rcases hknown with h | h | h
+    · exact h.1
+    · rw [hnew (by rw [h]; simp)] at hn; cases hn
+    · rw [hnew0 h] at hn; cases hn
+  obtain ⟨sp, hstored⟩ := storeOne_step hP.str hk hnew hc
+  have hrest : ∀ j ∈ rest, (s.objs j).oid ≠ none := by
+    intro j hj
+    obtain ⟨kj, hkj, _⟩ := hst j (List.mem_cons_of_mem _ hj)
+    rw [hkj]; simp
+  have step := storeOne_prog hP hk hnew hknown hnew0 (List.nodup_cons.1 hnd).1 hrest
+    (fun h1 h2 => hnr i k hk h1 h2) sp
+  refine ⟨k, hk, sp, hstored, step.prog, ?_, ?_, ?_⟩
+  · rw [List.nodup_append]
+    refine ⟨nodup_reverse sp.nodup, (List.nodup_cons.1 hnd).2, ?_⟩
+    intro a ha b hb hab
+    subst hab
+    have := (sp.pushedNew a (List.mem_reverse.1 ha)).2.1
+    exact hrest a hb this
+  · intro j hjm
+    rcases List.mem_append.1 hjm with hjp | hjr
+    · obtain ⟨_, h0n, k', hobj, hge⟩ := step.pushedFresh j (List.mem_reverse.1 hjp)
+      have hisn : isNewObj (storeOne s i).1.1 ((storeOne s i).1.1.objs j) k' = true := by
+        apply isNewObj_true
+        · rw [hobj]; exact hN.serial0 j h0n
+        · intro cr hcr
+          rw [step.prog.tmpCr] at hcr
+          cases hg : cr.get k' with
+          | none => rfl
+          | some b => have := hN.tmpFresh cr hcr k' (by rw [hg]; simp); omega
+      exact ⟨k', by rw [hobj], fun _ => hisn, Or.inr (Or.inr h0n), fun _ => hisn⟩
+    · obtain ⟨kj, hkj, hnewj, hknownj, hnew0j⟩ := hst j (List.mem_cons_of_mem _ hjr)
+      have hji : j ≠ i := by
+        intro he; rw [he] at hjr; exact (List.nodup_cons.1 hnd).1 hjr
+      have hsame : (storeOne s i).1.1.objs j = s.objs j := by
+        rcases sp.obj j with h | h | h
+        · exact h
+        · exact absurd h.1 hji
+        · rw [h.2.2.1] at hkj; cases hkj
+      have hkne : kj ≠ k := by
+        intro he; subst he; exact hji (hP.str.inj j i kj hkj hk)
+      have hisn : isNewObj (storeOne s i).1.1 ((storeOne s i).1.1.objs j) kj =
+          isNewObj s (s.objs j) kj := isNewObj_congr kj sp.tmpCr (by rw [hsame])
+      refine ⟨kj, by rw [hsame]; exact hkj, ?_, ?_, ?_⟩
+      · intro ha
+        rw [hisn]; apply hnewj
+        rw [sp.added] at ha
+        simpa [hkne] using ha
+      · rcases hknownj with h | h | h
+        · left; rw [sp.cache]; simp [hkne, h.1, h.2]
+        · right; left; rw [sp.added]; simp [hkne, h]
+        · exact Or.inr (Or.inr h)
+      · intro h; rw [hisn]; exact hnew0j h
+  · intro j hjm
+    rcases List.mem_append.1 hjm with hjp | hjr
+    · exact (step.pushedFresh j (List.mem_reverse.1 hjp)).2.1
+    · exact hpend j hjr
+
+/-- after an error every object that was on the stack, or was pushed by the failing iteration, is
+    disowned and the progress relation holds with nothing pending -/
+theorem storeOne_fail_drop {s0 s : State} (hN : NewOK s0) {i : Nat} {rest : List Nat}
+    (hP : Prog s0 (i :: rest) s) (hnr : NoRec s0 s) (hnd : (i :: rest).Nodup)
+    (hst : ∀ j ∈ i :: rest, StackOK s0 s j) (hpend : ∀ j ∈ rest, (s0.objs j).oid = none) :
+    Prog s0 [] (dropStack (storeOne s i).1.1 ((storeOne s i).2 ++ rest)) := by
+  obtain ⟨k, hk, sp, _, hprog, hnd', _, hp0⟩ := storeOne_loop hN hP hnr hnd hst hpend
+  apply dropStack_prog
+  · exact hprog.perm (by
+      intro j; simp only [List.mem_append, List.mem_reverse])
+  · intro j hj
+    exact hp0 j (by simp only [List.mem_append, List.mem_reverse] at hj ⊢; exact hj)
+  · rw [List.nodup_append] at hnd' ⊢
+    refine ⟨sp.nodup, hnd'.2.1, ?_⟩
+    intro a ha b hb
+    exact hnd'.2.2 a (List.mem_reverse.2 ha) b hb
+
+/-- `_modified`/`_creating` only grow and `_added` only shrinks -/
+def Mono (s r : State) : Prop :=
+  (∀ k, marked s k → marked r k) ∧ (∀ k j, r.added.get k = some j → s.added.get k = some j)
+
+theorem Mono.refl (s : State) : Mono s s := ⟨fun _ h => h, fun _ _ h => h⟩
+
+theorem Mono.trans {a b c : State} (h1 : Mono a b) (h2 : Mono b c) : Mono a c :=
+  ⟨fun k h => h2.1 k (h1.1 k h), fun k j h => h1.2 k j (h2.2 k j h)⟩
+
+theorem StepSpec.mono {s i k rest s3 pushed} (sp : StepSpec s i k rest s3 pushed) : Mono s s3 := by
+  refine ⟨sp.marked_mono, ?_⟩
+  intro k' j hj
+  rw [sp.added] at hj
+  split at hj
+  · cases hj
+  · exact hj
+
+theorem StepSpec.added_self {s i k rest s3 pushed} (sp : StepSpec s i k rest s3 pushed)
+    (hnew : s.added.get k ≠ none → isNewObj s (s.objs i) k = true) : s3.added.get k = none := by
+  rw [sp.added]
+  split
+  · rfl
+  · rename_i hn
+    cases ha : s.added.get k with
+    | none => rfl
+    | some j => exact absurd ⟨hnew (by rw [ha]; simp), rfl⟩ hn
+
+/-- the loop, started with only new objects pending -/
+theorem storeObjects_pending {s0 : State} (hN : NewOK s0) {J : State → Prop} (hJ : StepInv J)
+    (hJN : ∀ P s, Prog s0 P s → J s → NoRec s0 s) :
+    ∀ (fuel : Nat) (s : State) (stack : List ObjId), Prog s0 stack s → J s → stack.Nodup →
+      (∀ j ∈ stack, StackOK s0 s j) → (∀ j ∈ stack, (s0.objs j).oid = none) →
+      ((storeObjects fuel s stack).2 = none →
+        Prog s0 [] (storeObjects fuel s stack).1 ∧ J (storeObjects fuel s stack).1 ∧
+        Mono s (storeObjects fuel s stack).1) ∧
+      ((storeObjects fuel s stack).2 ≠ none → Prog s0 [] (storeObjects fuel s stack).1) := by
+  intro fuel
+  induction fuel with
+  | zero =>
+    intro s stack hP hj hnd _ h0
+    cases stack with
+    | nil => exact ⟨fun _ => ⟨hP, hj, Mono.refl s⟩, fun h => absurd rfl h⟩
+    | cons i rest =>
+      simp only [storeObjects]
+      exact ⟨fun h => by simp at h, fun _ => dropStack_prog _ _ hP h0 hnd⟩
+  | succ n ih =>
+    intro s stack hP hj hnd hst h0
+    cases stack with
+    | nil => exact ⟨fun _ => ⟨hP, hj, Mono.refl s⟩, fun h => absurd rfl h⟩
+    | cons i rest =>
+      have hpend : ∀ j ∈ rest, (s0.objs j).oid = none := fun j hj => h0 j (List.mem_cons_of_mem _ hj)
+      obtain ⟨k, hk, sp, hstored, hprog, hnd', hst', hp0⟩ := storeOne_loop hN hP (hJN _ s hP hj) hnd hst hpend
+      simp only [storeObjects]
+      cases hres : (storeOne s i).1.2 with
+      | none =>
+        simp only
+        have hj3 := hJ s i k rest _ _ hj hP.str hk sp (hstored hres)
+        obtain ⟨ih1, ih2⟩ := ih (storeOne s i).1.1 _ hprog hj3 hnd' hst' hp0
+        refine ⟨fun h => ?_, ih2⟩
+        obtain ⟨h1, h2, h3⟩ := ih1 h
+        exact ⟨h1, h2, sp.mono.trans h3⟩
+      | some e =>
+        simp only
+        exact ⟨fun h => by simp at h, fun _ => storeOne_fail_drop hN hP (hJN _ s hP hj) hnd hst hpend⟩
+
+/-- `_store_objects(ObjectWriter(obj))` for a registered object -/
+theorem storeObjects_top {s0 : State} (hN : NewOK s0) {J : State → Prop} (hJ : StepInv J)
+    (hJN : ∀ P s, Prog s0 P s → J s → NoRec s0 s) (n : Nat) (s : State) (i : ObjId) (hP : Prog s0 [] s) (hj : J s) (hst : StackOK s0 s i)
+    (hi0 : (s0.objs i).oid ≠ none) :
+    ((storeObjects (n + 1) s [i]).2 = none →
+      Prog s0 [] (storeObjects (n + 1) s [i]).1 ∧ J (storeObjects (n + 1) s [i]).1 ∧
+      Mono s (storeObjects (n + 1) s [i]).1 ∧
+      (∀ k, (s.objs i).oid = some k → marked (storeObjects (n + 1) s [i]).1 k ∧
+        (storeObjects (n + 1) s [i]).1.added.get k = none)) ∧
+    ((storeObjects (n + 1) s [i]).2 ≠ none → Prog s0 [] (storeObjects (n + 1) s [i]).1) := by
+  have hP1 : Prog s0 [i] s := by
+    refine { hP with str := hP.str.mono (by simp), newTracked := ?_, fresh0 := ?_, pendFresh := ?_ }
+    · intro x k h1 h2
+      obtain ⟨h3, h4⟩ := hP.newTracked x k h1 h2
+      exact ⟨h3, h4.elim (fun h => by cases h) Or.inr⟩
+    · intro x hx
+      rcases hP.fresh0 x hx with h | h | h
+      · exact Or.inl h
+      · exact absurd h.2 (by simp)
+      · exact Or.inr (Or.inr h)
+    · intro x hx h0 k hk
+      simp only [List.mem_singleton] at hx
+      subst hx
+      exact absurd h0 hi0
+  have hnd : [i].Nodup := by simp
+  have hst1 : ∀ j ∈ [i], StackOK s0 s j := by
+    intro j hj; simp only [List.mem_singleton] at hj; subst hj; exact hst
+  have hpend : ∀ j ∈ ([] : List Nat), (s0.objs j).oid = none := by intro j hj; cases hj
+  obtain ⟨k, hk, sp, hstored, hprog, hnd', hst', hp0⟩ := storeOne_loop hN hP1 (hJN _ s hP1 hj) hnd hst1 hpend
+  simp only [storeObjects]
+  cases hres : (storeOne s i).1.2 with
+  | none =>
+    simp only
+    have hj3 := hJ s i k [] _ _ hj hP1.str hk sp (hstored hres)
+    obtain ⟨ih1, ih2⟩ := storeObjects_pending hN hJ hJN n (storeOne s i).1.1 _ hprog hj3 hnd' hst' hp0
+    refine ⟨fun h => ?_, ih2⟩
+    obtain ⟨h1, h2, h3⟩ := ih1 h
+    refine ⟨h1, h2, sp.mono.trans h3, ?_⟩
+    intro k' hk'
+    rw [hk] at hk'; cases hk'
+    refine ⟨h3.1 _ sp.marked_self, ?_⟩
+    obtain ⟨k2, hk2, hnew2, _⟩ := hst
+    rw [hk] at hk2; cases hk2
+    have := sp.added_self hnew2
+    cases hc : (storeObjects n (storeOne s i).1.1 ((storeOne s i).2.reverse ++ [])).1.added.get k with
+    | none => rfl
+    | some j => have := h3.2 k j hc; simp_all
+  | some e =>
+    simp only
+    exact ⟨fun h => by simp at h, fun _ => storeOne_fail_drop hN hP1 (hJN _ s hP1 hj) hnd hst1 hpend⟩
+
+/-! ### the loop of `_commit` over the registered objects -/
+
+theorem commitLoop_prog {s0 : State} (hN : NewOK s0)
+    (hA : ∀ k j, s0.added.get k = some j → isNewObj s0 (s0.objs j) k = true)
+    {J : State → Prop} (hJ : StepInv J) (hJN : ∀ P s, Prog s0 P s → J s → NoRec s0 s) (n : Nat) :
+    ∀ (regs : List ObjId) (s : State), Prog s0 [] s → J s → (∀ i ∈ regs, (s0.objs i).oid ≠ none) →
+      ((commitLoop (n + 1) s regs).2 = none →
+        Prog s0 [] (commitLoop (n + 1) s regs).1 ∧ J (commitLoop (n + 1) s regs).1 ∧
+        Mono s (commitLoop (n + 1) s regs).1 ∧
+        (∀ i ∈ regs, ∀ k, (s0.objs i).oid = some k →
+          (commitLoop (n + 1) s regs).1.added.get k = none ∧
+          ((s0.added.get k = some i ∨ (s0.objs i).status = .changed) →
+            marked (commitLoop (n + 1) s regs).1 k))) ∧
+      ((commitLoop (n + 1) s regs).2 ≠ none → Prog s0 [] (commitLoop (n + 1) s regs).1) := by
+  intro regs
+  induction regs with
+  | nil =>
+    intro s hP hj _
+    exact ⟨fun _ => ⟨hP, hj, Mono.refl s, by simp⟩, fun h => absurd rfl h⟩
+  | cons i rest ih =>
+    intro s hP hj hreg
+    have hi0 := hreg i List.mem_cons_self
+    obtain ⟨k, hk0⟩ := Option.ne_none_iff_exists'.1 hi0
+    have hk := hP.oidKeep i k hk0
+    have hrest : ∀ j ∈ rest, (s0.objs j).oid ≠ none := fun j hj => hreg j (List.mem_cons_of_mem _ hj)
+    simp only [commitLoop, hk]
+    split
+    · -- the object is stored
+      rename_i hcond
+      have hst : StackOK s0 s i := by
+        refine ⟨k, hk, ?_, ?_, fun h => by rw [hk0] at h; cases h⟩
+        · intro ha
+          obtain ⟨j', hj'⟩ := Option.ne_none_iff_exists'.1 ha
+          have hjj : j' = i := hP.str.inj j' i k (hP.str.addedS k j' hj').1 hk
+          subst hjj
+          have h0 := hP.addedSub k j' hj'
+          have hobj := hP.addedSame k j' hj'
+          rw [isNewObj_congr k hP.tmpCr (by rw [hobj])]
+          exact hA k j' h0
+        · have := hP.str.known i k hk
+          simp only [List.not_mem_nil, or_false] at this
+          rcases this with h | h
+          · by_cases ha : s.added.has k = true
+            · rw [Map.has_iff] at ha
+              obtain ⟨j', hj'⟩ := Option.ne_none_iff_exists'.1 ha
+              have := (hP.str.addedS k j' hj').2
+              rw [h] at this; cases this
+            · left
+              refine ⟨h, ?_⟩
+              simp only [ha, Bool.false_or, Bool.not_eq_true', Bool.or_eq_false_iff,
+                bne_eq_false_iff_eq] at hcond
+              intro hg
+              have := hP.noChange i hcond.2
+              rw [hg] at this; cases this
+          · exact Or.inr (Or.inl h)
+      have hso := storeObjects_top hN hJ hJN n s i hP hj hst hi0
+      cases hres : (storeObjects (n + 1) s [i]).2 with
+      | none =>
+        simp only
+        obtain ⟨h1, h2, h3, h4⟩ := hso.1 hres
+        obtain ⟨ih1, ih2⟩ := ih (storeObjects (n + 1) s [i]).1 h1 h2 hrest
+        refine ⟨fun h => ?_, ih2⟩
+        obtain ⟨g1, g2, g3, g4⟩ := ih1 h
+        refine ⟨g1, g2, h3.trans g3, ?_⟩
+        intro j hjm kj hkj
+        rcases List.mem_cons.1 hjm with hje | hjr
+        · subst hje
+          rw [hk0] at hkj; cases hkj
+          obtain ⟨m1, m2⟩ := h4 _ hk
+          refine ⟨?_, fun _ => g3.1 _ m1⟩
+          cases hc : (commitLoop (n + 1) (storeObjects (n + 1) s [j]).1 rest).1.added.get k with
+          | none => rfl
+          | some j' => have := g3.2 k j' hc; rw [m2] at this; cases this
+        · exact g4 j hjr kj hkj
+      | some e =>
+        simp only
+        exact ⟨fun h => by simp at h, fun _ => hso.2 (by rw [hres]; simp)⟩
+    · -- nothing to do for this object
+      rename_i hcond
+      obtain ⟨ih1, ih2⟩ := ih s hP hj hrest
+      refine ⟨fun h => ?_, ih2⟩
+      obtain ⟨g1, g2, g3, g4⟩ := ih1 h
+      refine ⟨g1, g2, g3, ?_⟩
+      intro j hjm kj hkj
+      rcases List.mem_cons.1 hjm with hje | hjr
+      · subst hje
+        rw [hk0] at hkj; cases hkj
+        simp only [Bool.or_eq_true, Bool.not_eq_true', Bool.or_eq_false_iff, not_or,
+          Bool.not_eq_true, bne_eq_false_iff_eq, not_and] at hcond
+        obtain ⟨hnadd, hcr⟩ := hcond
+        refine ⟨?_, ?_⟩
+        · cases hc : (commitLoop (n + 1) s rest).1.added.get k with
+          | none => rfl
+          | some j' =>
+            have := g3.2 k j' hc
+            rw [Map.has_eq_false] at hnadd; rw [hnadd] at this; cases this
+        intro hch
+        apply g3.1
+        rcases hch with hch | hch
+        · rcases hP.addedTracked k j hch with h | h
+          · rw [Map.has_eq_false] at hnadd; rw [hnadd] at h; cases h
+          · exact Or.inr h.1
+        · rcases hP.statusKept j with h | ⟨k', hk', hm⟩
+          · by_cases hc : s.creating.has k = true
+            · exact Or.inr hc
+            · exfalso
+              have := hcr (by simpa using hc)
+              rw [h, hch] at this
+              simp at this
+          · rw [hk] at hk'; cases hk'; exact hm
+      · exact g4 j hjr kj hkj
+
+/-! ### what ends up in the storage transaction (commit without savepoints) -/
+
+/-- the records staged in the storage describe stored objects of the connection, and every oid
+    recorded in `_modified`/`_creating` has a staged record -/
+structure Stg (s0 s : State) : Prop where
+  spNone : s.sp = none
+  recs : ∀ k r, (k, r) ∈ s.staged → (k, r) ∈ s0.staged ∨
+    ∃ j, s.cache.get k = some j ∧ r = ⟨(s.objs j).serial, (s.objs j).val, (s.objs j).refs⟩ ∧
+      (s.objs j).status ≠ .ghost ∧ marked s k ∧ ∀ x ∈ (s.objs j).refs, (s.objs x).oid ≠ none
+  marks : ∀ k, marked s k → marked s0 k ∨ ∃ r, (k, r) ∈ s.staged
+
+theorem Stg.refl {s : State} (h : s.sp = none) : Stg s s :=
+  ⟨h, fun _ _ h => Or.inl h, fun _ h => Or.inl h⟩
+
+theorem stg_step (s0 : State) : StepInv (Stg s0) := by
+  intro s i k rest s3 pushed hJ hS hk sp st
+  have hkeep : ∀ j k2, (s.objs j).oid = some k2 → (s3.objs j).oid = some k2 := by
+    intro j k2 hj
+    rcases sp.obj j with h | h | h
+    · rw [h]; exact hj
+    · rw [h.2.1]; exact hj
+    · rw [h.2.2.1] at hj; cases hj
+  obtain ⟨hsp3, _, hst3⟩ := st.stagedNone hJ.spNone
+  refine ⟨hsp3, ?_, ?_⟩
+  · intro k' r hr
+    rw [hst3, List.mem_append, List.mem_singleton] at hr
+    rcases hr with hr | hr
+    · rcases hJ.recs k' r hr with h | ⟨j, hc, hrec, hng, hm, hrefs⟩
+      · exact Or.inl h
+      · right
+        have hoj := hS.cacheS k' j hc
+        have hcache3 : s3.cache.get k' = some j := by
+          rw [sp.cache]
+          by_cases hkk : k' = k
+          · subst hkk; rw [hS.inj j i k' hoj hk]; simp
+          · simp [hkk, hc]
+        have hsame : (s3.objs j).serial = (s.objs j).serial ∧ (s3.objs j).val = (s.objs j).val ∧
+            (s3.objs j).refs = (s.objs j).refs ∧ (s3.objs j).status ≠ .ghost := by
+          rcases sp.obj j with h | h | h
+          · rw [h]; exact ⟨rfl, rfl, rfl, hng⟩
+          · have := h.2.2.2.2.1 hng
+            exact ⟨this.2.2, this.1, this.2.1, by rw [h.2.2.2.1]; simp⟩
+          · rw [h.2.2.1] at hoj; cases hoj
+        refine ⟨j, hcache3, by rw [hsame.1, hsame.2.1, hsame.2.2.1]; exact hrec, hsame.2.2.2,
+          sp.marked_mono k' hm, ?_⟩
+        intro x hx
+        rw [hsame.2.2.1] at hx
+        obtain ⟨kx, hkx⟩ := Option.ne_none_iff_exists'.1 (hrefs x hx)
+        rw [hkeep x kx hkx]; simp
+    · cases hr
+      right
+      exact ⟨i, by rw [sp.cache]; simp, rfl, st.notGhost, sp.marked_self, st.refsOid⟩
+  · intro k' hm
+    by_cases hkk : k' = k
+    · subst hkk
+      right
+      exact ⟨⟨(s3.objs i).serial, (s3.objs i).val, (s3.objs i).refs⟩, by rw [hst3]; simp⟩
+    · have hm' : marked s k' := by
+        unfold marked at hm ⊢
+        rw [sp.modified, sp.creating] at hm
+        rcases hm with hm | hm
+        · left
+          split at hm
+          · exact hm
+          · rcases List.mem_append.1 hm with h | h
+            · exact h
+            · simp only [List.mem_singleton] at h; exact absurd h hkk
+        · right
+          split at hm
+          · rename_i hc; exact absurd hc.2 hkk
+          · exact hm
+      rcases hJ.marks k' hm' with h | ⟨r, hr⟩
+      · exact Or.inl h
+      · right; exact ⟨r, by rw [hst3]; exact List.mem_append_left _ hr⟩
 
 end Proofs.Conn
